@@ -1,9 +1,10 @@
 #!/bin/bash
-# usage: seeded_eval.sh <Cxx> [extra properties to run...]
+# usage: seeded_eval.sh <Cxx>[:suffix] [extra properties to run...]      (suffix e.g. -r2 for a second-round change)
 # confirms a sub-agent's seeded change independently (suite green with it, demo fails with / passes without),
 # stores it under /verif/seeded/<id>/, then runs the property's quick check against it in /repo and restores /repo.
-id="$1"; shift; extra="$@"
-src=/tmp/wt/$id/_seeded; dst=/verif/seeded/$id
+arg="$1"; shift; extra="$@"
+id="${arg%%:*}"; suffix=""; [ "$arg" != "$id" ] && suffix="${arg#*:}"
+src=/tmp/wt/$id/_seeded; dst=/verif/seeded/$id$suffix
 [ -f "$src/patch.diff" ] || { echo "$id: no patch"; exit 2; }
 mkdir -p $dst; cp $src/patch.diff $dst/patch.diff; cp $src/seeded_demo.rs $dst/seeded_demo.rs; cp $src/NOTES.md $dst/NOTES.md 2>/dev/null
 W=/tmp/wt/mut; cd $W && git checkout -q -- . && rm -f tests/seeded_demo.rs
